@@ -22,7 +22,9 @@ fn main() {
             "C04" => c04::replay(&v["case"]),
             "C05" => c05::replay(&v["case"]),
             "C06" => c06::replay(&v["case"]),
+            "C07" => c07::replay(&v["case"]),
             "C08" => c08::replay(&v["case"]),
+            "C14" => c14::replay(&v["case"]),
             _ => machinery_error(&format!("no replay for property {id}")),
         };
         match r {
@@ -49,7 +51,9 @@ fn main() {
         "C04" => c04::run(tier),
         "C05" => c05::run(tier),
         "C06" => c06::run(tier),
+        "C07" => c07::run(tier),
         "C08" => c08::run(tier),
+        "C14" => c14::run(tier),
         other => machinery_error(&format!("unknown property {other}")),
     }
 }
